@@ -66,6 +66,10 @@ REQUESTS = {
     'GetMdState(N1,N2,PAT)': ('Get', 'GetMdState', [A.NUM1, A.NUM2, A.PAT]),
     'GetMdDescription': ('Get', 'GetMdDescription', None),
     'GetMdDescription(N1)': ('Get', 'GetMdDescription', [A.NUM1]),
+    'GetMdDescription(N2)': ('Get', 'GetMdDescription', [A.NUM2]),
+    'GetMdDescription(NEW)': ('Get', 'GetMdDescription', [A.NEW]),
+    'GetMdState(NEW)': ('Get', 'GetMdState', [A.NEW]),
+    'GetMdState(N2)': ('Get', 'GetMdState', [A.NUM2]),
     'GetContextStates': ('StateEvent', 'GetContextStates', None),
     'GetContextStates(LOC)': ('StateEvent', 'GetContextStates', [A.LOC]),
 }
@@ -108,6 +112,11 @@ SCENARIOS = [
     (['GetMdib'], ['alert']),
     (['GetMdState(all)'], ['component']),
     (['GetMdib'], ['operational']),
+    # the requested handle itself is deleted / created by the concurrent transaction
+    (['GetMdDescription(N2)'], ['descr-delete']),
+    (['GetMdDescription(NEW)'], ['descr-create']),
+    (['GetMdState(N2)'], ['descr-delete']),
+    (['GetMdState(NEW)'], ['descr-create']),
 ]
 SCENARIOS_2 = [
     (['GetMdib'], ['metric', 'metric2']),
@@ -119,12 +128,59 @@ SCENARIOS_2 = [
 ]
 
 
+# statement-granularity pass: every statement of the Get handlers / the MDIB reconstruction and of the commit path of a
+# transaction is a scheduling point (one preemption): a critical section that lost its lock, or two statements that were
+# moved out of it, are then visible although no lock operation separates them any more
+LINE_ANCHORS = [
+    ('provider/porttypes/getserviceimpl.py', '_on_get_md_state'),
+    ('provider/porttypes/getserviceimpl.py', '_on_get_mdib'),
+    ('provider/porttypes/getserviceimpl.py', '_on_get_md_description'),
+    ('provider/porttypes/getserviceimpl.py', 'mk_get_mddescription_response_message'),
+    ('provider/porttypes/contextserviceimpl.py', '_on_get_context_states'),
+    ('mdib/mdibbase.py', 'reconstruct_mdib'),
+    ('mdib/mdibbase.py', 'reconstruct_mdib_with_context_states'),
+    ('mdib/mdibbase.py', 'reconstruct_md_description'),
+    ('mdib/mdibbase.py', '_reconstruct_mdib'),
+    ('mdib/mdibbase.py', '_reconstruct_md_description'),
+    ('mdib/mdibbase.py', 'mdib_version_group'),
+    ('mdib/providermdib.py', '_transaction_manager'),
+    ('mdib/providermdib.py', '_process_transaction'),
+    ('mdib/providermdib.py', 'process_transaction'),
+    ('mdib/transactions.py', 'process_transaction'),
+    ('mdib/transactions.py', '_handle_state_updates'),
+    ('mdib/transactions.py', '_handle_descriptors'),
+    ('mdib/transactions.py', '_handle_states'),
+    ('mdib/transactions.py', '_handle_modifications'),
+    ('mdib/transactions.py', '_handle_deletes'),
+    ('mdib/transactions.py', '_handle_updates'),
+    ('mdib/transactions.py', '_handle_creates'),
+    ('mdib/transactions.py', '_update_corresponding_state'),
+    ('mdib/transactions.py', '_increment_parent_descriptor_version'),
+]
+LINE_SCENARIOS = [
+    (['GetMdib'], ['metric']),
+    (['GetMdState(N1,N2,PAT)'], ['metric']),
+    (['GetMdState(all)'], ['patient']),
+    (['GetMdDescription'], ['descr-update']),
+    (['GetMdDescription(N1)'], ['descr-create']),
+    (['GetContextStates'], ['location']),
+    (['GetContextStates(LOC)'], ['patient']),
+    (['GetMdib'], ['descr-create']),
+    (['GetMdib'], ['location']),
+    (['GetMdState(all)'], ['descr-delete']),
+    (['GetMdDescription(N2)'], ['descr-delete']),
+    (['GetMdDescription(NEW)'], ['descr-create']),
+]
+
+
 class Run:
     """One execution: fresh world, threads, schedule prefix."""
 
-    def __init__(self, scenario, prefix):
+    def __init__(self, scenario, prefix, lines=False):
         self.requests, self.writers = scenario
         self.s = sched.Scheduler(prefix)
+        if lines:
+            self.s.line_anchors = _ANCHORS
         world.install()
         w = world.World()
         world.ENV.sched = self.s
@@ -222,6 +278,9 @@ class Run:
                 got[canon.key_of(s)] = canon.canon_obj(s)
             if name == 'GetMdState(all)':
                 want = {k: c for k, c in content.items() if k[0] in ('s', 'c')}
+            elif name in ('GetMdState(NEW)', 'GetMdState(N2)'):
+                h = REQUESTS[name][2][0]
+                want = {k: c for k, c in content.items() if k[0] == 's' and k[1] == h}
             else:
                 want = {k: c for k, c in content.items()
                         if (k[0] == 's' and k[1] in (A.NUM1, A.NUM2)) or (k[0] == 'c' and dict(c[1]).get('DescriptorHandle') == A.PAT)}
@@ -231,6 +290,9 @@ class Run:
             for d in self.reader._read_md_description_node(node):
                 got[('d', d.Handle)] = canon.canon_obj(d)
             want = {k: c for k, c in content.items() if k[0] == 'd'}
+            handles = REQUESTS[name][2]
+            if handles and not any(('d', h) in content for h in handles):
+                want = {}      # none of the requested handles exists at the stated version: empty description
         else:
             for s in res.result.ContextState:
                 got[('c', s.Handle)] = canon.canon_obj(s)
@@ -263,24 +325,39 @@ def _weight(label):
     return 1 if any(m in label for m in MAJOR) else 2
 
 
-def run_one(scenario, prefix):
-    r = Run(scenario, prefix).go()
+_ANCHORS = sched.LineAnchors(LINE_ANCHORS)
+
+
+def _line_weight(label):
+    """Statement pass: a preemption costs 1 everywhere; lock points that are not at the mdib-level locks are skipped as
+    alternatives (they were explored by the lock-granularity pass) by giving them a cost above every bound."""
+    if label.startswith('line:') or any(m in label for m in MAJOR):
+        return 1
+    return 99
+
+
+def run_one(scenario, prefix, lines=False):
+    r = Run(scenario, prefix, lines).go()
     return r
 
 
 def _key(arg):
-    return '+'.join(arg[0][0]) + ' || ' + '+'.join(arg[0][1]) + f' /bound={arg[1]}'
+    return '+'.join(arg[0][0]) + ' || ' + '+'.join(arg[0][1]) + f' /bound={arg[1]}' + ('/lines' if len(arg) > 3 else '')
 
 
 def _explore_scenario(acc, job):
     arg, start, expand_only = job
-    scenario, bound, cap = arg
-    name = '+'.join(scenario[0]) + ' || ' + '+'.join(scenario[1])
+    scenario, bound, cap = arg[:3]
+    lines = len(arg) > 3 and arg[3] == 'lines'
+    _weight = _line_weight if lines else globals()['_weight']
+    name = '+'.join(scenario[0]) + ' || ' + '+'.join(scenario[1]) + (' [statements]' if lines else '')
     outcomes = set()
     found = {}
 
     def one(prefix):
-        r = run_one(scenario, prefix)
+        r = run_one(scenario, prefix, lines)
+        if lines:
+            acc.add('statement-points', r.s.line_points)
         problems = r.judge()
         versions = tuple(sorted((n, res.mdib_version_group.mdib_version) for n, res in r.results.values()))
         obs = (versions, tuple(p[0] for p in problems))
@@ -310,8 +387,8 @@ def _explore_scenario(acc, job):
         acc.nontrivial(h64((name, o)))
     for kind, (detail, choices, pre) in found.items():
         acc.violation(f'{kind}/{"+".join(scenario[1])}', {'scenario': name, 'detail': detail, 'schedule': choices,
-                                                          'preemptions': pre},
-                      case={'scenario': [list(scenario[0]), list(scenario[1])], 'schedule': choices})
+                                                          'preemptions': pre, 'statement_points': lines},
+                      case={'scenario': [list(scenario[0]), list(scenario[1])], 'schedule': choices, 'lines': lines})
     if len(acc.samples) < 3 and not expand_only:
         acc.sample({'scenario': name, 'schedules_in_this_subtree_group': n, 'outcomes': sorted(map(str, outcomes))[:4]})
 
@@ -327,6 +404,7 @@ def run(ctx):
     # caps are per subtree group (sched.run_partitioned)
     jobs = [(s, bound, 4000 if ctx.quick else 2500) for s in SCENARIOS]
     jobs += [(s, 1 if ctx.quick else 2, 3000 if ctx.quick else 2500) for s in SCENARIOS_2]
+    jobs += [(s, 1 if ctx.quick else 2, 4000 if ctx.quick else 2500, 'lines') for s in LINE_SCENARIOS]
     sched.run_partitioned(ctx, _explore_scenario, ctx.rotate(jobs), _key, group=8)
     _determinism_selfcheck(ctx)
     ctx.assumptions.append('races between statements that are not separated by a lock operation are outside the granularity '
@@ -359,7 +437,7 @@ def _determinism_selfcheck(ctx):
 
 def replay(ctx, case):
     sc = (case['scenario'][0], case['scenario'][1])
-    r = run_one(sc, case['schedule'])
+    r = run_one(sc, case['schedule'], bool(case.get('lines')))
     problems = r.judge()
     for kind, detail in problems:
         ctx.violation(f'{kind}/{"+".join(sc[1])}', detail)
